@@ -40,6 +40,43 @@ BSHAPES = ['scalar', 'row', 'row2', 'col', 'full']
 BFORMS = ['obj', 'neg', 'row', 'loop', 'rowloop', 'abs', 'sparse']
 
 
+BILFORMS = ['plain', 'T', 'TT', 'loop', 'rows', 'matmul', 'rmul', 'reshape']
+
+
+def _bilinear(X, Z, Wz, form, n, m):
+    """sum_ij Wz_ij X_ij Z_ij in several array spellings."""
+    if form == 'plain':
+        return (Wz * (X * Z)).sum()
+    if form == 'T':
+        return (Wz.T * (X * Z).T).sum()
+    if form == 'TT':
+        return ((X.T * Z.T) * Wz.T).T.sum()
+    if form == 'loop':
+        out = None
+        for i in range(n):
+            for j in range(m):
+                t = float(Wz[i, j]) * X[i, j] * Z[i, j]
+                out = t if out is None else out + t
+        return out
+    if form == 'rows':
+        out = None
+        for i in range(n):
+            t = (Wz[i] * X[i]) @ Z[i]
+            out = t if out is None else out + t
+        return out
+    if form == 'matmul':
+        out = None
+        for j in range(m):
+            t = (Wz[:, j] * X[:, j]) @ Z[:, j]
+            out = t if out is None else out + t
+        return out
+    if form == 'rmul':
+        return ((X * Z) * Wz).sum(axis=0).sum()
+    if form == 'reshape':
+        return (Wz.reshape(-1) * (X * Z).reshape((n * m,))).sum()
+    raise ValueError(form)
+
+
 def _bshape(rng, n, m, kind, lo, hi):
     if kind == 'scalar':
         return float(np.round(rng.uniform(lo, hi), 1))
@@ -47,7 +84,7 @@ def _bshape(rng, n, m, kind, lo, hi):
     return np.round(rng.uniform(lo, hi, shp), 1).tolist()
 
 
-def gen_matrix(rng, tier):
+def gen_matrix(rng, tier, robust=None):
     n, m = int(rng.integers(2, 5)), int(rng.integers(2, 5))
     if rng.random() < 0.25:
         m = n                              # square: a transposed broadcast would go unnoticed less
@@ -59,16 +96,20 @@ def gen_matrix(rng, tier):
           'robust': bool(rng.random() < 0.5),
           'zlo': _bshape(rng, n, m, BSHAPES[int(rng.integers(5))], -1, -0.1),
           'zhi': _bshape(rng, n, m, BSHAPES[int(rng.integers(5))], 0.1, 1),
+          'Wz': np.round(rng.uniform(-2, 2, (n, m)), 1).tolist(),
           'W': np.round(rng.uniform(-1, 1, (int(rng.integers(0, 3)), n, m)), 1).tolist(),
           'slack': float(np.round(rng.uniform(0.2, 1.5), 1))}
     if rng.random() < 0.3:                 # symmetric bounds so that the abs form applies
         sp['lo'] = (-np.asarray(sp['hi'])).tolist()
     if rng.random() < 0.3:
         sp['zlo'] = (-np.asarray(sp['zhi'])).tolist()
+    if robust is not None:
+        sp['robust'] = robust
     nv = 5 if tier == 'quick' else 8
     sp['variants'] = [{'x': [BFORMS[int(rng.integers(len(BFORMS)))] for _ in range(2)],
                        'z': [BFORMS[int(rng.integers(len(BFORMS)))] for _ in range(2)],
-                       'flip': bool(rng.random() < 0.3)} for _ in range(nv)]
+                       'flip': bool(rng.random() < 0.3),
+                       'bil': int(rng.integers(len(BILFORMS)))} for _ in range(nv)]
     return {'kind': 'matrix', 'spec': sp}
 
 
@@ -122,11 +163,12 @@ def _matrix_reference(sp):
     for k in range(len(W)):
         A.append(np.concatenate([-W[k], np.zeros(N)]))
         b.append(-(W[k] @ x0 - sp['slack']))
+    Wz = np.asarray(sp.get('Wz', np.ones((n, m))), float).reshape(-1)
     if sp['robust']:
         for j in range(N):
             for zb in (zlo[j], zhi[j]):
                 r = np.zeros(2 * N)
-                r[j] = sg * zb
+                r[j] = sg * zb * Wz[j]
                 r[N + j] = -1.0
                 A.append(r)
                 b.append(0.0)
@@ -162,7 +204,9 @@ def _matrix_value(sp, v):
         zsym = bool(np.array_equal(-np.asarray(sp['zlo'], float), np.asarray(sp['zhi'], float)))
         zset = _bound(Z, sp['zlo'], 'L', fz[0], n, m) + \
             _bound(Z, sp['zhi'], 'U', fz[1], n, m, sym=zsym)
-        obj = sg * ((Cm * X).sum() + (X * Z).sum())
+        Wz = np.asarray(sp.get('Wz', np.ones((n, m))), float)
+        bil = BILFORMS[v['bil']] if v is not None and 'bil' in v else 'plain'
+        obj = sg * ((Cm * X).sum() + _bilinear(X, Z, Wz, bil, n, m))
         if front == 'ro':
             (mod.minmax if sense == 'min' else mod.maxmin)(obj, zset)
         else:
@@ -212,6 +256,8 @@ def run_matrix(spec, ctx):
             continue
         ctx.count('rewrites_compared')
         forms |= set(v['x']) | (set(v['z']) if sp['robust'] else set())
+        if sp['robust'] and 'bil' in v:
+            forms.add('bil:' + BILFORMS[v['bil']])
         if rv_[0] != 'optimal' or abs(rv_[1] - ref) > tol:
             detail.append({'what': 'rewrite changes the optimum', 'rewrite': {'forms': v},
                            'rewritten': rv_, 'reference': ref, 'base': r0})
